@@ -105,6 +105,7 @@ pub enum Body {
     /// dangling references); `target` picks an existing global object, `method` a native method name
     Garbage { target: u8, method: String, args: Vec<GArg>, with_bucket: bool },
     LockMetadata { res: u8, key: u8 },
+    RemoveMetadata { res: u8, key: u8 },
     /// role-assignment module: set the owner rule to "require signature of party `to`"
     SetOwnerRole { res: u8, to: u8 },
     LockOwnerRole { res: u8 },
@@ -153,6 +154,7 @@ impl Body {
             Body::MultiTransfer { .. } => "MultiTransfer",
             Body::Garbage { .. } => "Garbage",
             Body::LockMetadata { .. } => "LockMetadata",
+            Body::RemoveMetadata { .. } => "RemoveMetadata",
             Body::SetOwnerRole { .. } => "SetOwnerRole",
             Body::LockOwnerRole { .. } => "LockOwnerRole",
             Body::CallRoyalty { .. } => "CallRoyalty",
@@ -765,6 +767,13 @@ pub fn build(step: &LStep, view: &View, node: &Node) -> Built {
             }));
             return Built::User(TransactionManifestV1 { instructions: full, blobs: Default::default(), object_names: Default::default() });
         }
+        Body::RemoveMetadata { res, key } => {
+            let Some(r) = fres(res) else { return Built::Skip };
+            if r.owner.is_none() {
+                return Built::Skip;
+            }
+            b.call_metadata_method(r.addr, "remove", manifest_args!(format!("k{}", key)))
+        }
         Body::LockMetadata { res, key } => {
             let Some(r) = fres(res) else { return Built::Skip };
             if r.owner.is_none() {
@@ -1228,7 +1237,8 @@ pub fn gen_step(rng: &mut Rng, view: &View, node: &Node, w: &Weights, fault_perm
                     key_len: *rng.pick(&[1u16, 10, 100, 101, 500, 1000, 2000]),
                     value_len: *rng.pick(&[0u32, 1, 100, 4000, 4096, 5000, 100_000]),
                 },
-                0..=3 => Body::SetMetadata { res: r, key: rng.below(3) as u8, value: rng.below(5) as u8 },
+                0 => Body::RemoveMetadata { res: r, key: rng.below(3) as u8 },
+                1..=3 => Body::SetMetadata { res: r, key: rng.below(3) as u8, value: rng.below(5) as u8 },
                 4..=5 => Body::LockMetadata { res: r, key: rng.below(3) as u8 },
                 6 => Body::SetOwnerRole { res: r, to: rng.below(np) as u8 },
                 _ => Body::LockOwnerRole { res: r },
